@@ -436,12 +436,23 @@ def run_single_unit(key, col) -> None:
     settings(max_examples=8, database=None, deadline=None, suppress_health_check=list(HealthCheck), phases=[Phase.generate])(seed(7)(given(S.BIN[kind][0]())(lambda c: drawn.append(c))))()
     seeds = sorted({S.BIN[kind][1](c): c for c in drawn}.items(), key=lambda kv: (len(kv[0]) == 0, len(kv[0])))
     seeds = [(b, c) for b, c in seeds if len(b) <= 160][:2] or [(seeds[0][0][:160], seeds[0][1])]
+    if kind == "ms_script":
+        # a script grammar has one decoder arm per leading op code: one short corpus script for each distinct first two bytes, not just the two shortest
+        # (a seeded change hid in the arm that reads a hash fragment, reachable only from a script that starts with one)
+        by_head = {}
+        for i in range(len(S.CORPUS["miniscripts"])):
+            raw = S.BIN[kind][1](i)
+            if len(raw) <= 120:
+                by_head.setdefault(raw[:2], (raw, i))
+        seeds = list({b: (b, c) for b, c in [*seeds, *sorted(by_head.values(), key=lambda bc: len(bc[0]))[:24]]}.values())
     calls, distinct, tags = 0, set(), {}
     for raw, c in seeds:
         x = ep.variants[0]
         if x == "seed":
             x = _variant(ep, {"variant": 0}, {"kind": kind, "seed": c})
         edits = [raw[:i] for i in range(len(raw))]
+        edits += [raw[i:] for i in range(1, len(raw))]  # cut from the front
+        edits += [raw[:i] + raw[i + 1:] for i in range(1, len(raw))]  # one byte deleted
         for i in range(len(raw)):
             edits += [raw[:i] + bytes([b]) + raw[i + 1:] for b in SINGLE_BYTES if b != raw[i]]
             edits += [raw[:i] + H.compact_size(v) + raw[i + 1:] for v in SINGLE_CS]
@@ -1366,7 +1377,7 @@ SUBCHECKS = [
              bytes_case, quick=6000, thorough=80000, max_buckets=4),
     SubCheck("parsers_bytes_blocks", skippable("parsers_bytes_blocks", lambda case: check_bytes(case, "parsers_bytes_blocks")), "the same as parsers_bytes over BlockPayload.parse with real mainnet blocks (up to 1 MB, 1866 transactions) as seeds: bounded separately for its cost",
              lambda: bytes_case(["p2p:BlockPayload"]), quick=32, thorough=400, max_buckets=3, shards=4),
-    SubCheck("single_edits", None, "exhaustive: every binary entry point x two short valid encodings (<= 160 bytes) x EVERY single edit: truncation at every offset, every byte set to each of 0x00 0x01 0x4c 0x4e 0x7f 0x80 0xfc "
+    SubCheck("single_edits", None, "exhaustive: every binary entry point x two short valid encodings (<= 160 bytes) x EVERY single edit: truncation at every offset from either end, deletion of every byte, every byte set to each of 0x00 0x01 0x4c 0x4e 0x7f 0x80 0xfc "
              "0xfd 0xfe 0xff, a CompactSize of 0xfd, 0xffff, 0x10000, 2^32-1, 2^32, 2^64-1 and the non-minimal 9-byte spelling written over every offset; check_validity on and off. Non-trivial: distinct inputs accepted or refused "
              "beyond the first field", units=single_units, run_unit=run_single_unit, exhaustive=True),
     SubCheck("parsers_text", skippable("parsers_text", check_text), "every text decoder (addresses, WIF, extended keys, descriptors, miniscript, mnemonics of three schemes, derivation paths, key origins, BIP21 URIs, base64 armours) and every octets "
@@ -1388,6 +1399,8 @@ SUBCHECKS = [
              "is_on_curve) from a call that answers True, with one, two or all arguments replaced by generated values of the DECLARED type (bytes of every length, hex/non-hex/non-ASCII str, bytearray, memoryview; SEC keys "
              "valid, x>=p, off-curve, hybrid, the other root; xpub strings/objects under mutation; points with edge coordinates; Sig objects built unchecked with edge r/s; DER/base64 under structural mutation; ints in and out "
              "of range; sequences of mismatched lengths), on both backends: the call returns a bool", CP.predicate_case, quick=5000, thorough=60000, max_buckets=4),
+    SubCheck("coverage_guided", None, "atheris / libFuzzer campaigns (btclib instrumented, in-process) over 10 targets - transaction, block and header, psbt, p2p message, script / tapscript / witness / script_pub_key, keys and signatures, descriptor text, miniscript text, miniscript scripts, address / key / URI text codecs - each seeded with a few valid encodings, libFuzzer seed derived from VERIF_SEED; the oracle is inside the target: return or BTClib exception, accepted bytes re-serialize to exactly what was consumed and parse again alone, ids and sizes equal the wire model's, text forms re-parse to equal objects; non-trivial: inputs libFuzzer kept because they reached new coverage",
+             units=lambda tier: __import__("checks.c19_fuzz", fromlist=["units"]).units(tier), run_unit=lambda unit, col: __import__("checks.c19_fuzz", fromlist=["run_unit"]).run_unit(unit, col)),
     SubCheck("predicate_spellings", None, "exhaustive: every predicate's True-answering call x every bytes/str argument respelled in each other form its declared type admits (bytearray, memoryview, hex str lower/upper/"
              "space-padded; ascii bytes/bytearray/memoryview for String) x both backends: the answer stays True", units=spelling_units, run_unit=run_spelling_unit, exhaustive=True),
     SubCheck("consumers", skippable("consumers", check_consumers), "objects that a parser ACCEPTED from (lightly) mutated bytes / text / JSON, check_validity on and off, are handed to every consumer: every public property and "
